@@ -844,6 +844,22 @@ theorem caddyfile_unhealthy_request_count (dur : Bytes → Option Int) (addr : B
   unfold rpStep
   simp only [hv, h1, h2, h3, h4, h5, h6, h7, if_false, if_true, ha, hn]
 
+/-- **the sticky cookie can come back**: it is `Secure` (and `SameSite=None`) exactly when the
+    request arrived over TLS or a *trusted* proxy says `X-Forwarded-Proto: https` (last value) — so
+    over plain HTTP it is never marked Secure (a browser would not return it), and -/
+theorem sticky_cookie_secure_iff (tls trusted : Bool) (xfp : List Bytes) (ma : Int) :
+    (stickyAttrs tls trusted xfp ma).secure = true ↔
+      tls = true ∨ (trusted = true ∧ xfp.getLast? = some httpsBytes) := by
+  simp [stickyAttrs, proxyHttps]
+
+/-- … an untrusted client cannot influence the attributes through `X-Forwarded-Proto` -/
+theorem sticky_cookie_ignores_untrusted_forwarded_proto (tls : Bool) (xfp xfp' : List Bytes) (ma : Int) :
+    stickyAttrs tls false xfp ma = stickyAttrs tls false xfp' ma := by
+  simp [stickyAttrs, proxyHttps]
+
+theorem sticky_cookie_samesite_none_iff_secure (tls trusted : Bool) (xfp : List Bytes) (ma : Int) :
+    (stickyAttrs tls trusted xfp ma).sameSiteNone = (stickyAttrs tls trusted xfp ma).secure := rfl
+
 /-! ## the draw list: random and least_conn use at most one draw per upstream -/
 
 /-- the model never runs out of draws when given one draw per upstream -/
@@ -1068,5 +1084,11 @@ example : (attempt { exCfg with ups := [⟨7, 0, 1⟩, ⟨9, 0, 2⟩, ⟨11, 0, 
     (pinit .first { exCfg with ups := [⟨7, 0, 1⟩, ⟨9, 0, 2⟩, ⟨11, 0, 0⟩] } [])).1 = [some 0, some 1] ∧
   (attempt { exCfg with ups := [⟨7, 0, 1⟩, ⟨9, 0, 2⟩, ⟨11, 0, 0⟩] } false true 2 .none
     (pinit .first { exCfg with ups := [⟨7, 0, 1⟩, ⟨9, 0, 2⟩, ⟨11, 0, 0⟩] } [])).2.1 = .sent 2 := by decide
+
+-- sticky cookie: plain HTTP → not Secure; TLS → Secure; trusted proxy with last X-Forwarded-Proto https → Secure;
+-- an earlier https followed by http → not; max_age 90s → Max-Age 90, 500ms → none
+example : stickyAttrs false false [str "https"] 0 = ⟨false, false, 0⟩ ∧ stickyAttrs true false [] 90000000000 = ⟨true, true, 90⟩ ∧
+    stickyAttrs false true [str "http", str "https"] 0 = ⟨true, true, 0⟩ ∧
+    stickyAttrs false true [str "https", str "http"] 500000000 = ⟨false, false, 0⟩ := by decide
 
 end CaddyModel.C08
